@@ -232,8 +232,18 @@ func (r *Reader) include(ctx context.Context, node Node) error {
 	// Create an error group to wait for all included Taskfiles to be read
 	var g errgroup.Group
 
+	// The edges to the included Taskfiles, in the order the includes are declared
+	type includeEdge struct {
+		include  *ast.Include
+		location string
+	}
+	edges := make([]*includeEdge, vertex.Taskfile.Includes.Len())
+	index := 0
+
 	// Loop over each included taskfile
 	for _, include := range vertex.Taskfile.Includes.All() {
+		i := index
+		index++
 		vars := env.GetEnviron()
 		vars.Merge(vertex.Taskfile.Vars, nil)
 		// Start a goroutine to process each included Taskfile
@@ -280,40 +290,55 @@ func (r *Reader) include(ctx context.Context, node Node) error {
 				return err
 			}
 
-			// Create an edge between the Taskfiles
-			r.graph.Lock()
-			defer r.graph.Unlock()
-			edge, err := r.graph.Edge(node.Location(), includeNode.Location())
-			if err == graph.ErrEdgeNotFound {
-				// If the edge doesn't exist, create it
-				err = r.graph.AddEdge(
-					node.Location(),
-					includeNode.Location(),
-					graph.EdgeData([]*ast.Include{include}),
-					graph.EdgeWeight(1),
-				)
-			} else {
-				// If the edge already exists
-				edgeData := append(edge.Properties.Data.([]*ast.Include), include)
-				err = r.graph.UpdateEdge(
-					node.Location(),
-					includeNode.Location(),
-					graph.EdgeData(edgeData),
-					graph.EdgeWeight(len(edgeData)),
-				)
-			}
-			if errors.Is(err, graph.ErrEdgeCreatesCycle) {
-				return errors.TaskfileCycleError{
-					Source:      node.Location(),
-					Destination: includeNode.Location(),
-				}
-			}
-			return err
+			edges[i] = &includeEdge{include: include, location: includeNode.Location()}
+			return nil
 		})
 	}
 
 	// Wait for all the go routines to finish
-	return g.Wait()
+	if err := g.Wait(); err != nil {
+		return err
+	}
+
+	// Create the edges between the Taskfiles in the order the includes are
+	// declared, so that the result does not depend on goroutine scheduling
+	r.graph.Lock()
+	defer r.graph.Unlock()
+	for _, e := range edges {
+		// Optional includes that were not found have no edge
+		if e == nil {
+			continue
+		}
+		edge, err := r.graph.Edge(node.Location(), e.location)
+		if err == graph.ErrEdgeNotFound {
+			// If the edge doesn't exist, create it
+			err = r.graph.AddEdge(
+				node.Location(),
+				e.location,
+				graph.EdgeData([]*ast.Include{e.include}),
+				graph.EdgeWeight(1),
+			)
+		} else {
+			// If the edge already exists
+			edgeData := append(edge.Properties.Data.([]*ast.Include), e.include)
+			err = r.graph.UpdateEdge(
+				node.Location(),
+				e.location,
+				graph.EdgeData(edgeData),
+				graph.EdgeWeight(len(edgeData)),
+			)
+		}
+		if errors.Is(err, graph.ErrEdgeCreatesCycle) {
+			return errors.TaskfileCycleError{
+				Source:      node.Location(),
+				Destination: e.location,
+			}
+		}
+		if err != nil {
+			return err
+		}
+	}
+	return nil
 }
 
 func (r *Reader) readNode(ctx context.Context, node Node) (*ast.Taskfile, error) {
